@@ -341,8 +341,18 @@ def run(rep, f, c, rule='R-UTF8STORE'):
                                 dom = dom & ISet.of((0x80, N - 1))
                             elif leaf[0] == 'init' and h in heads:
                                 dom = dom & head_invariant(f, b, heads, h, leaf[1], bits)
-                            if bits == 16:
-                                dom = dom - ISet.of((0xD800, 0xDFFF)) if not (dom & ISet.of((0xD800, 0xDFFF))) else dom
+                            is_param = leaf[0] == 'loc' and leaf[1] <= b.arg_count     # a writer's parameter: its callers owe the contract (R-WRITERS)
+                            if bits == 16 and len(vals) >= 2 and (dom & ISet.of((0xD800, 0xDFFF))) and not is_param:
+                                # a code unit that can still be a surrogate on this path must not be written as a sequence of its
+                                # own (ED A0..BF xx is not UTF-8): it has to be paired or replaced by U+FFFD first
+                                key = '%s:%d bytes:surrogate' % (fn, len(vals))
+                                if key not in seen:
+                                    seen.add(key)
+                                    n += 1
+                                    rep.ob(rule + '.surrogate', key, False,
+                                           'a UTF-16 code unit that can be a surrogate on this path (%r) is stored as a %d-byte sequence of its own: the output is not UTF-8 '
+                                           '(an unpaired surrogate must become U+FFFD)' % (dom & ISet.of((0xD800, 0xDFFF)), len(vals)), site, None, c)
+                                continue
                         if not dom:
                             continue
                         if len(vals) == 1 and not (dom - ISet.of((0, 0x7F))):
